@@ -361,7 +361,7 @@ def _parse_and_use(res, stepno, data, multiple, tag, entry="Calendar"):
             res.violate("C04/termination/from_ical:cpu-time-outside-interpreter", stepno,
                         f"{tag}: {val} with only {used} line events - time spent inside C code")
             return "budget", None
-        res.violate("C04/termination/from_ical:" + _where_budget(val) + _rule_class(data, _where_budget(val)), stepno,
+        res.violate("C04/termination/from_ical:" + _where_budget(val) + _rule_class(data, _where_budget(val), val), stepno,
                     f"{tag}: step budget exhausted after {used} line events for {nbytes} bytes")
         return "budget", None
     if kind == "exc":
@@ -382,14 +382,22 @@ def _parse_and_use(res, stepno, data, multiple, tag, entry="Calendar"):
     return "parsed", comps
 
 
-def _rule_class(data, where):
-    """When the budget ran out while a VTIMEZONE RRULE was being expanded, say what kind of rule the
-    document carries, so that distinct causes get distinct signatures."""
+def _rule_class(data, where, exc=None):
+    """When the budget ran out while a VTIMEZONE RRULE was being expanded, say what kind of rule it was,
+    so that distinct causes get distinct signatures.  The rule is read from the frame that was expanding
+    it (local `rrulestr` of Timezone._extract_offsets); the document text is only a fallback."""
     import re
     if "_extract_offsets" not in where:
         return ""
-    text = data if isinstance(data, str) else data.decode("utf-8", "replace")
-    rules = re.findall(r"(?im)^RRULE[^:\r\n]*:([^\r\n]*)", text)
+    rules = None
+    tb = getattr(exc, "__traceback__", None)
+    while tb is not None:
+        if tb.tb_frame.f_code.co_name == "_extract_offsets" and isinstance(tb.tb_frame.f_locals.get("rrulestr"), str):
+            rules = [tb.tb_frame.f_locals["rrulestr"]]
+        tb = tb.tb_next
+    if rules is None:
+        text = data if isinstance(data, str) else data.decode("utf-8", "replace")
+        rules = re.findall(r"(?im)^RRULE[^:\r\n]*:([^\r\n]*)", text)
     classes = set()
     for r in rules:
         u = r.upper()
